@@ -332,6 +332,8 @@ pub fn run_terms(ch: &mut Choices, verbose: bool) -> TermsReport {
     let coop_phase = ch.chance(1, 12) && HOOKED;
     let coop_seed = ch.bits() as u64;
     let churn: u32 = if ch.chance(1, 12) { [200u32, 1500, 6000][ch.choose(3) as usize] } else { 0 };
+    // (very rarely a churn large enough to overflow any table of up to a million names)
+    let churn: u32 = if ch.chance(1, 4000) { 1_200_000 } else { churn };
     let rp = RealiseParams {
         reorder: !ch.chance(1, 10),
         duplicates: ch.chance(1, 2),
